@@ -24,6 +24,9 @@ def check_fn(prop, cfg, tier, seed, ncases_override=None):
     args = tuple(cfg.get("args", ())) + ("tasgrid=" + tool,)
     res = check.run_cases(prop, variant, n, tier, seed, timeout=cfg.get("timeout", 300), chunk=cfg.get("chunk", 5),
                           extra_args=args, extra_env=SAN)
+    if not os.environ.get("VF_KEEP"):   # script directories survive only when tsgmon itself died inside a case
+        import glob, shutil
+        for d in glob.glob(os.path.join(check.BUILD_ROOT, "tmp", "c16_*")): shutil.rmtree(d, ignore_errors=True)
     cnt = res.counters
     cmds = sorted(k[4:] for k in cnt if k.startswith("cmd:"))
     extra = dict(
@@ -45,7 +48,7 @@ def check_fn(prop, cfg, tier, seed, ncases_override=None):
 
 def replay(rec):
     import subprocess, sys
-    cfg = check.PROPS["C16"]; variant = rec.get("variant") or cfg["variant"]
+    variant = rec.get("variant") or "asan"
     tsgmon = check.build(variant)
     env = dict(os.environ); env.update(check.SAN_ENV.get(variant, {})); env.update(SAN)
     tmpd = os.path.join(check.BUILD_ROOT, "tmp"); os.makedirs(tmpd, exist_ok=True); env["VF_TMPDIR"] = tmpd
